@@ -201,7 +201,12 @@ func ZZC11History() {
 	v.Observe("history", trace)
 	// observables after the history vs fresh objects
 	var o c11Obs
-	o.checkOK, o.checkCode, o.checkPos = errSig(s.Check())
+	hcerr := s.Check()
+	o.checkOK, o.checkCode, o.checkPos = errSig(hcerr)
+	var hde errors.DocumentError
+	if hcerr != nil && stdErrors.As(hcerr, &hde) {
+		o.checkWhere = hde.Filename() + "|" + hde.IncorrectUserType()
+	}
 	o.valOK, o.valCode, o.valPos = errSig(s.Validate(json.New("d", d1)))
 	ex, err := s.Example()
 	o.exampleOK = err == nil
